@@ -282,11 +282,11 @@ def run_complex_scaled(cases, res):
 
 def shard(shard, nshards, rng, tier, extra):
     res = Result()
-    run_cases([gen(rng) for _ in range((4000 if tier == 'quick' else 100000) // nshards)], res)
-    best_sizes(rng, (600 if tier == 'quick' else 15000) // nshards, res)
-    run_operand(operand_cases(rng, (1200 if tier == 'quick' else 30000) // nshards), res)
+    run_cases([gen(rng) for _ in range((12000 if tier == 'quick' else 100000) // nshards)], res)
+    best_sizes(rng, (1800 if tier == 'quick' else 15000) // nshards, res)
+    run_operand(operand_cases(rng, (3600 if tier == 'quick' else 30000) // nshards), res)
     cx = []
-    while len(cx) < (500 if tier == 'quick' else 12000) // nshards:
+    while len(cx) < (1500 if tier == 'quick' else 12000) // nshards:
         c = gen(rng)
         if len(c['vs']) != 1: continue
         c['scale'] = Fraction(rng.choice([49, 3, 7, 75, 1, 2, -3, 5]), 2 ** rng.randint(0, 3)); c['vs'] = [c['scale'] * c['ts'][0] + c['bias']]
